@@ -209,6 +209,114 @@ theorem tpStep_mem (ppf cdf : Nat → α → α) (ps : List α) (sep : α) (tset
       · exact Or.inl ht
       · exact Or.inr ⟨p, ⟨hp, hs⟩, rfl⟩
 
+/-! ### Coverage: after row `i` has been processed every percentile is within `sep` of a projected point -/
+
+theorem minL_le_init (xs : List α) : ∀ m, minL xs m ≤ m := by
+  induction xs with
+  | nil => intro m; exact le_rfl
+  | cons x xs ih =>
+    intro m
+    rw [minL]
+    split_ifs with h
+    · exact le_trans (ih x) h.le
+    · exact ih m
+
+theorem minL_le_mem (xs : List α) : ∀ m, ∀ x ∈ xs, minL xs m ≤ x := by
+  induction xs with
+  | nil => intro m x hx; simp at hx
+  | cons y ys ih =>
+    intro m x hx
+    rw [minL]
+    rcases List.mem_cons.mp hx with rfl | hx
+    · split_ifs with h
+      · exact minL_le_init ys x
+      · exact le_trans (minL_le_init ys m) (not_lt.mp h)
+    · exact ih _ x hx
+
+theorem minL_mem (xs : List α) : ∀ m, minL xs m = m ∨ minL xs m ∈ xs := by
+  induction xs with
+  | nil => intro m; left; rfl
+  | cons y ys ih =>
+    intro m
+    rw [minL]
+    split_ifs with h
+    · rcases ih y with h1 | h1
+      · right; rw [h1]; exact List.mem_cons_self ..
+      · right; exact List.mem_cons_of_mem _ h1
+    · rcases ih m with h1 | h1
+      · left; exact h1
+      · right; exact List.mem_cons_of_mem _ h1
+
+theorem minAbsDist_le (v : α) (l : List α) (x : α) (hx : x ∈ l) : minAbsDist v l ≤ absSub v x := by
+  cases l with
+  | nil => simp at hx
+  | cons p ps =>
+    rw [minAbsDist]
+    rcases List.mem_cons.mp hx with rfl | hx
+    · exact minL_le_init _ _
+    · exact minL_le_mem _ _ _ (List.mem_map.mpr ⟨x, hx, rfl⟩)
+
+theorem minAbsDist_mem (v : α) (l : List α) (h : l ≠ []) : ∃ x ∈ l, minAbsDist v l = absSub v x := by
+  cases l with
+  | nil => exact absurd rfl h
+  | cons p ps =>
+    rw [minAbsDist]
+    rcases minL_mem (ps.map (absSub v)) (absSub v p) with h1 | h1
+    · exact ⟨p, List.mem_cons_self .., h1⟩
+    · obtain ⟨x, hx, hxe⟩ := List.mem_map.mp h1
+      exact ⟨x, List.mem_cons_of_mem _ hx, hxe.symm⟩
+
+theorem minAbsDist_mono (v : α) (l l' : List α) (h : l ≠ []) (hsub : ∀ x ∈ l, x ∈ l') :
+    minAbsDist v l' ≤ minAbsDist v l := by
+  obtain ⟨x, hx, he⟩ := minAbsDist_mem v l h
+  rw [he]
+  exact minAbsDist_le v l' x (hsub x hx)
+
+theorem absSub_self (v : α) : absSub v v = 0 := by
+  simp [absSub]
+
+/-- One step establishes coverage for its own row (needs `cdf i ∘ ppf i = id` on the percentiles). -/
+theorem tpStep_coverage (ppf cdf : Nat → α → α) (ps : List α) (sep : α) (hsep : 0 ≤ sep) (tset : List α)
+    (hne : tset ≠ []) (i : Nat) (hinv : ∀ p ∈ ps, cdf i (ppf i p) = p) :
+    ∀ p ∈ ps, minAbsDist p ((tpStep ppf cdf ps sep tset i).map (cdf i)) ≤ sep := by
+  intro p hp
+  by_cases hsel : sep < minAbsDist p (tset.map (cdf i))
+  · have hmem : ppf i p ∈ tpStep ppf cdf ps sep tset i :=
+      (tpStep_mem ppf cdf ps sep tset i _).mpr (Or.inr ⟨p, hp, hsel, rfl⟩)
+    have : p ∈ (tpStep ppf cdf ps sep tset i).map (cdf i) :=
+      List.mem_map.mpr ⟨ppf i p, hmem, hinv p hp⟩
+    calc minAbsDist p _ ≤ absSub p p := minAbsDist_le p _ p this
+      _ = 0 := absSub_self p
+      _ ≤ sep := hsep
+  · have hle := not_lt.mp hsel
+    refine le_trans (minAbsDist_mono p (tset.map (cdf i)) _ (by simpa using hne) ?_) hle
+    intro x hx
+    obtain ⟨t, ht, rfl⟩ := List.mem_map.mp hx
+    exact List.mem_map.mpr ⟨t, (tpStep_prefix ppf cdf ps sep tset i).subset ht, rfl⟩
+
+theorem foldl_tpStep_coverage (ppf cdf : Nat → α → α) (ps : List α) (sep : α) (hsep : 0 ≤ sep)
+    (is : List Nat) (hinv : ∀ i ∈ is, ∀ p ∈ ps, cdf i (ppf i p) = p) :
+    ∀ tset, tset ≠ [] → ∀ i ∈ is, ∀ p ∈ ps,
+      minAbsDist p ((is.foldl (tpStep ppf cdf ps sep) tset).map (cdf i)) ≤ sep := by
+  induction is with
+  | nil => intro tset _ i hi; simp at hi
+  | cons i0 rest ih =>
+    intro tset hne i hi p hp
+    have hne1 : tpStep ppf cdf ps sep tset i0 ≠ [] := by
+      intro h
+      have := (tpStep_prefix ppf cdf ps sep tset i0)
+      rw [h] at this
+      exact hne (List.prefix_nil.mp this)
+    simp only [List.foldl_cons]
+    rcases List.mem_cons.mp hi with rfl | hi
+    · have hcov := tpStep_coverage ppf cdf ps sep hsep tset hne i
+        (hinv i (List.mem_cons_self ..)) p hp
+      refine le_trans (minAbsDist_mono p _ _ (by simpa using hne1) ?_) hcov
+      intro x hx
+      obtain ⟨t, ht, rfl⟩ := List.mem_map.mp hx
+      exact List.mem_map.mpr ⟨t, (foldl_tpStep_prefix ppf cdf ps sep rest _).subset ht, rfl⟩
+    · exact ih (fun j hj => hinv j (List.mem_cons_of_mem _ hj)) _ hne1 i hi p hp
+
 end TP
 
 end Tsdate.PriorGrid
